@@ -181,9 +181,32 @@ func comments(t ast.Tree) (all []string, docs []string) {
 	return
 }
 
+// docstringCause classifies why a docstring changed, so that distinct causes get distinct
+// violation signatures: the source has an empty '#' line directly before a task (that empty
+// comment is the task's docstring and prints as nothing), or something else.
+func docstringCause(src string) string {
+	lines := strings.Split(src, "\n")
+	for i, l := range lines {
+		if strings.TrimSpace(l) != "#" {
+			continue
+		}
+		for j := i + 1; j < len(lines); j++ {
+			next := strings.TrimSpace(lines[j])
+			if next == "" {
+				continue
+			}
+			if strings.HasPrefix(next, "task") {
+				return "empty-comment-line-before-the-task"
+			}
+			break
+		}
+	}
+	return "other-cause"
+}
+
 // C15: formatting keeps every comment and every task's docstring.
 func C15() {
-	_, t1, _, t2, ok1, ok2 := parseTwice()
+	src, t1, _, t2, ok1, ok2 := parseTwice()
 	if !ok1 || !ok2 {
 		return
 	}
@@ -193,9 +216,9 @@ func C15() {
 	if len(docs1) == len(docs2) {
 		for i := range docs1 {
 			if len(docs1[i]) != len(docs2[i]) {
-				sym.Violation("C15/docstring-changed", "")
+				sym.Violation("C15/docstring-changed/"+docstringCause(src), "")
 			} else {
-				sym.Assert(docs1[i] == docs2[i], "C15/docstring-changed")
+				sym.Assert(docs1[i] == docs2[i], "C15/docstring-changed/same-length-different-text")
 			}
 		}
 	}
